@@ -97,7 +97,7 @@ def compile_tu(path, repo, dev):
 
 def run(tier, seed, repo, build, out, flavours, zoo):
     t0 = time.time()
-    n = 320 if tier == 'quick' else 6000
+    n = 320 if tier == "quick" else 3000
     rng = random.Random(seed * 7919 + 13)
     specs = list(zoo.values())
     seen = set(specs)
@@ -115,9 +115,12 @@ def run(tier, seed, repo, build, out, flavours, zoo):
             jobs.append((p, dev, k))
     violations = []
     undecided = []
-    with ThreadPoolExecutor(max_workers=os.cpu_count() or 4) as ex:
+    with ThreadPoolExecutor(max_workers=max(2, min(12, (os.cpu_count() or 4) - 2))) as ex:   # the large structures need > 1 GB per compiler process
         results = list(ex.map(lambda j: compile_tu(j[0], repo, j[1]), jobs))
     for (p, dev, k), (rc, outp) in zip(jobs, results):
+        if rc != 0 and 'static_assert failed' not in outp:
+            # no verdict from this translation unit (compiler killed or out of memory under load): once more, alone
+            rc, outp = compile_tu(p, repo, dev)
         if rc == 0:
             continue
         fails = re.findall(r'static_assert failed[^"]*"(s\d+)\|([^ "]+) ([^"]*)"', outp)
